@@ -28,9 +28,15 @@ def diags_of(e):
     return out
 
 
-def generate(cfgname, n, tag):
+def generate(cfgname, n, tag, out=None):
+    """the small covering family in full (every template x every way its result is consumed), the large one sampled"""
     r = run_tlc("Gen_Conform", cfg=cfgname, simulate=n, depth=10, workers=4, seed_=seed() * 37 + len(tag), heap="6g", timeout=3000)
-    cases = r.tagged("CASE")
+    rc = run_tlc("Gen_Conform", cfg=cfgname + "_cover", workers=4, heap="6g", timeout=3000)
+    if rc.rc != 0:
+        raise ToolError("Gen_Conform cover family did not finish:\n" + rc.out[-2000:])
+    if out is not None:
+        out.add_tlc(rc)
+    cases = rc.tagged("CASE") + r.tagged("CASE")
     seen, out = set(), []
     for c in cases:
         k = c["text"] + "|" + c["inj"]
@@ -44,12 +50,13 @@ def run(tier, replay=None):
     out = Outcome(PID, tier)
     wd = os.path.join(WORK, PID)
     rvh = build_harness()
-    cases, gres = generate("Gen_Conform", 200 if tier == "quick" else 6000, "c04")
+    cases, gres = generate("Gen_Conform", 200 if tier == "quick" else 6000, "c04", out)
     out.add_tlc(gres)
     if replay:
         cases = [json.load(open(replay))["witness"]["case"]]
     # confirmation that the generator's programs behave conventionally: executed on the reference machine
-    conf = cases[: (60 if tier == "quick" else 600)]
+    nconf = 80 if tier == "quick" else 800
+    conf = cases[:: max(1, len(cases) // nconf)][:nconf]
     evs = ex.observe(rvh, [c["text"] for c in conf], wd, "confirm")
     v, ress = validate_chunks("Trace_Exec", evs, wd, "confirm.chunk", chunk=400, heap="8g", timeout=3000)
     stops = set()
